@@ -27,7 +27,7 @@ MCView == <<View, runs, trues>>
 Threads == {1, 2}
 SSeq(S) == SetToSortSeq(S, <)
 Bd(nc, tr) == [nc |-> nc, tr |-> tr]
-B == CASE Scope = "lts" -> Bd(3, 2) [] Scope = "mc" -> Bd(3, 2) [] Scope = "thorough" -> Bd(5, 3) [] Scope = "trace" -> Bd(8, 3)
+B == CASE Scope \in {"lts", "lts2"} -> Bd(3, 2) [] Scope = "mc" -> Bd(3, 2) [] Scope = "thorough" -> Bd(5, 3) [] Scope = "trace" -> Bd(8, 3)
 Cfgs == [ar : IF Scope = "lts" THEN {1} ELSE {0, 1}, nc : {B.nc}, tr : {B.tr}]          \* ar = 0: promise.Event, 1: promise.Event1[int]
 Kinds == {"plain", "gate", "reg"} \cup (IF Scope = "lts" THEN {} ELSE {"trig"})
 Idle == <<<<>>, 0, "">>
